@@ -105,7 +105,9 @@ func checkC10(e *RunEnv) *CheckResult {
 			a := n.Abs()
 			t := stateTags(a)
 			var steps []Step
-			add := func(s Step, tags ...string) { steps = append(steps, s.WithTags(append(append([]string{}, t...), tags...)...)) }
+			add := func(s Step, tags ...string) {
+				steps = append(steps, s.WithTags(append(append([]string{}, t...), tags...)...))
+			}
 			for _, nm := range N {
 				add(Run("branch", nm))
 				add(Run("branch", "-d", nm))
@@ -159,7 +161,7 @@ func checkC10(e *RunEnv) *CheckResult {
 			content := "edit for a long name\n"
 			cs = append(cs, Case{Base: base, BaseName: "S1", BaseSeed: seedS1(), Probe: true, Steps: []Step{
 				Run("switch", "-c", nm), Write("a", content), Run("add", "a"), Run("commit", "-m", "m"), Run("switch", "main"), Run("switch", nm),
-				Run("branch", nm2), Run("switch", nm2), Run("branch", "-d", nm), Run("branch", "-r", nm), Run("switch", "b"), Run("update-ref", "refs/heads/" + nm2, "")}})
+				Run("branch", nm2), Run("switch", nm2), Run("branch", "-d", nm), Run("branch", "-r", nm), Run("switch", "b"), Run("update-ref", "refs/heads/"+nm2, "")}})
 		}
 		// temporary files left behind by an interrupted switch / commit / add
 		left := []Step{Write(".goit/HEAD.tmp", "ref: refs/heads/a-name-longer-than-any-other-branch-name-here\n"), Write(".goit/branch.tmp", strings.Repeat("junk ", 20)), Write(".goit/index.tmp", strings.Repeat("junk ", 200))}
@@ -170,6 +172,15 @@ func checkC10(e *RunEnv) *CheckResult {
 			{Write("a", "edit\n"), Run("add", "a"), Run("commit", "-m", "m"), Run("switch", "b"), Run("reset", "--soft", "HEAD@{1}")},
 		} {
 			cs = append(cs, Case{Base: base, BaseName: "S1", BaseSeed: seedS1(), Probe: true, Steps: append(append([]Step{}, left...), tail...)})
+		}
+		// 300 branches: create, list, rename and delete at both ends and in the middle
+		{
+			var many []Step
+			for i := 0; i < 300; i++ {
+				many = append(many, Run("branch", fmt.Sprintf("br%03d", i)))
+			}
+			many = append(many, Run("switch", "br150"), Run("branch", "-r", "zz-last"), Run("branch", "-d", "br000"), Run("branch", "-d", "br299"), Run("switch", "-c", "aa-first"), Run("branch", "-d", "zz-last"), Run("branch", "-r", "br000"))
+			cs = append(cs, Case{Base: base, BaseName: "S1", BaseSeed: seedS1(), Probe: true, Steps: many})
 		}
 		extra = x.RunCases(cs)
 	}, func(x *Explorer, cov map[string]interface{}) {
